@@ -25,8 +25,8 @@ def abstract_fs(case, ids):
     smap = gl.script_map(case)
     for k, name in case['names'].items():
         refname = (gl.lookup(smap, name) or {}).get('ref', os.path.basename(name))
-        if name.startswith('$TMPDIR/'):
-            # lives in a temporary directory that changes from run to run: not observed (the model's value is assumed)
+        if name.startswith('$TMPDIR/') or name.startswith('~'):
+            # lives in a temporary directory (or outside the working directory) that changes from run to run: not observed (the model's value is assumed)
             fs[k] = case.get('assumed', {}).get(k, 'absent')
             fs['ref:' + k] = cid(os.path.join('ref', 'job', refname))
             continue
@@ -81,7 +81,7 @@ def one_session(args):
     case = gl.make_case(rnd, wd, shape, tmpdir_tokens_with_one_iteration=(nperturb == 0), dated_first_line=dated)
     ids = {}
     events = []
-    detail = {'tid': tid, 'shape': shape, 'names': case['names'], 'command_arguments': case.get('cmd_args', ''), 'flags': case['flags'], 'refs': case['refs'], 'pre': case['pre'], 'script': case['script'],
+    detail = {'tid': tid, 'shape': shape, 'names': case['names'], 'command_arguments': case.get('cmd_args', ''), 'earlier_generation_in_same_process': case.get('prelim', False), 'flags': case['flags'], 'refs': case['refs'], 'pre': case['pre'], 'script': case['script'],
               'behaviour': case['beh'], 'wd': wd}
     if os.path.exists(os.path.join(wd, 'test_job.py')):
         case['stale_script_sha'] = gl.sha(os.path.join(wd, 'test_job.py'))
@@ -95,7 +95,7 @@ def one_session(args):
         events.append({'tid': tid, 'ev': 'Generate', 'raised': type(ex).__name__, 'fs': fs0, 'compiles': False})
         return events, detail
     refused = case['beh']['exit'] != 0 and not case['nonzero']
-    case['assumed'] = {k: beh0['files'][k] for k in case['names'] if case['names'][k].startswith('$TMPDIR/')}
+    case['assumed'] = {k: beh0['files'][k] for k in case['names'] if case['names'][k].startswith('$TMPDIR/') or case['names'][k].startswith('~')}
     fs1, snap1 = abstract_fs(case, ids)
     compiles = True
     raised = 'none'
@@ -140,7 +140,7 @@ def one_session(args):
     runtest('fresh')
     # perturbations: one change at a time, each followed by a run of the generated test
     targets = sorted(case['names']) + ([] if case['no_stdout'] else ['STDOUT']) + ([] if case['no_stderr'] else ['STDERR']) + ['exit']
-    cwd_files = [k for k in sorted(case['names']) if not case['names'][k].startswith('$TMPDIR/')]
+    cwd_files = [k for k in sorted(case['names']) if not case['names'][k].startswith('$TMPDIR/') and not case['names'][k].startswith('~')]
     plan = ['remove', 'stream', 'edit', 'exit', 'tokenline', 'stream', 'tokenline']
     for step in range(nperturb):
         kind_ = 'tokenline' if step == 1 else plan[(tid + step) % len(plan)]
@@ -215,7 +215,7 @@ def one_session(args):
     return events, detail
 
 
-SHAPES = {'': [], 'o1': ['o1'], 'o2': ['o2'], 'o1o2': ['o1', 'o2'], 'o1o3': ['o1', 'o3'], 'o1o4': ['o1', 'o4'], 'o1o5': ['o1', 'o5']}
+SHAPES = {'': [], 'o1': ['o1'], 'o2': ['o2'], 'o1o2': ['o1', 'o2'], 'o1o3': ['o1', 'o3'], 'o1o4': ['o1', 'o4'], 'o1o5': ['o1', 'o5'], 'o1o6': ['o1', 'o6']}
 
 
 def script_passes_signature(e, det):
@@ -247,7 +247,7 @@ def run_sessions(chk, seed, nsessions, nperturb, clauses, kind):
     rnd = random.Random(seed)
     tasks = []
     for tid in range(nsessions):
-        shape = rnd.choice(['', 'o1', 'o1', 'o2', 'o1o2', 'o1o2', 'o1o3', 'o1o4', 'o1o5'])
+        shape = rnd.choice(['', 'o1', 'o1', 'o2', 'o1o2', 'o1o2', 'o1o3', 'o1o4', 'o1o5', 'o1o6'])
         tasks.append((rnd.randrange(10**9), tid, root, SHAPES[shape], nperturb))
     with ThreadPoolExecutor(14) as ex:
         results = list(ex.map(one_session, tasks))
